@@ -624,7 +624,7 @@ def forwarding_discipline(ctx, rule: str, params: Iterable[str], minimum: int, f
 
 
 
-def octet_length_lint(ctx, rule: str) -> None:
+def octet_length_lint(ctx, rule: str, family: Optional[str] = None) -> None:
     """bits -> octets of a quantity that need not be a multiple of 8 (the size of an RSA modulus, of a curve, a bit_length()) rounds UP:
     `(bits + 7) // 8` (RFC 8017 k, RFC 7518 coordinate size, RFC 7518 6.3 integers).  `bits // 8` drops an octet for P-521 (521 bits, 66 octets)
     and for RSA moduli such as 2047 bits.  Algorithm parameters (AES key sizes, CEK / IV sizes, hash lengths) are multiples of 8 and not concerned:
@@ -632,6 +632,8 @@ def octet_length_lint(ctx, rule: str) -> None:
     eng = ctx.eng
     n = 0
     for fn in eng.prog.all_functions():
+        if not in_family(fn, family):
+            continue
         for node in fn_nodes(fn):
             if not (isinstance(node, ast.BinOp) and ((isinstance(node.op, (ast.FloorDiv, ast.Div)) and const_value(node.right) == 8) or
                                                      (isinstance(node.op, ast.RShift) and const_value(node.right) == 3))):
